@@ -20,6 +20,22 @@ sys.path.insert(0, os.path.join(os.path.dirname(os.path.dirname(os.path.abspath(
 from c11_ast import float_me, cname, bin_   # noqa: E402  (pure helpers, no library import)
 
 
+F22 = 'C11-v1-skip-init-false'
+F22_OPEN = [False]          # set in run(): is the finding listed as open?
+
+
+def f22_field(c, f):
+    """v1 engine: Alias(skip=True) on a field declared init=False (region of finding C11-v1-skip-init-false)"""
+    return bool(c['meta'].get('v1')) and not f['dump'] and f.get('dump_via') in ('v1_field', 'v1_annotated') \
+        and f.get('init') is False
+
+
+def model_dumped(c, f):
+    """does the CURRENT implementation dump this field at all? (faithful model: while that finding is open, the
+    skip=True of an init=False field is ignored)"""
+    return f['dump'] or (F22_OPEN[0] and f22_field(c, f))
+
+
 META = {
     'id': 'C11',
     'title': 'Dump omits exactly the fields selected by skip rules, exclude and dump=False',
@@ -48,7 +64,13 @@ META = {
              'cond: single-field classes over operator x value x placement (skip_if_field, Annotated, Meta.skip_if, '
              'Meta.skip_defaults_if) x wizard (JSONWizard, plain dataclass + DumpMeta, EnvWizard) with instances holding the very '
              'object, an equal copy, and other values. cls: random classes of 1-6 fields x ALL subsets E (+ None, + a foreign '
-             'name) x s in {unset, True, False} x 2 instances. A case is one to_dict call; non-trivial when the class has a '
+             'name) x s in {unset, True, False} x 2 instances, with dataclass declaration features (init=False with default / '
+             'default_factory / assigned in __post_init__, kw_only or positional, repr/compare=False, fields inherited from a base '
+             'dataclass, ClassVar, InitVar, frozen, slots, default_factory returning the same or a new object, values omitted from '
+             'the constructor, values equal to the default but of another type 1/1.0/True, 0/-0.0/False). decl: classes built '
+             'around those features x 3 skip_defaults settings. shared: ONE Condition object reused by 4 classes at different '
+             'field positions / as Meta.skip_if / Meta.skip_defaults_if, dumped in sequence in one interpreter. former_f20: every '
+             'former F6/F20 value shape. A case is one to_dict call; non-trivial when the class has a '
              'condition or a default and >= 2 fields or a non-empty E; distinct = distinct (class, instance, E, s).'),
     'trusted_base': ['model coq/model/SkipModel.v; nested shared nan objects inside containers are outside the model '
                      '(generators never share them)',
@@ -258,7 +280,7 @@ def cfields(c, inst, ids):
     out = []
     for f, lv in zip(c['fields'], inst):
         out.append('(FD %s %s %s %s %s)' % (
-            coq_str(f['name']), ('(Some %s)' % coq_str(f['key'])) if f['dump'] else 'None',
+            coq_str(f['name']), ('(Some %s)' % coq_str(f['key'])) if model_dumped(c, f) else 'None',
             ('(Some %s)' % clv(f['default'], ids)) if f['default'] is not None else 'None',
             ccond(f.get('cond'), ids), clv(lv, ids)))
     return coq_list(out)
@@ -448,6 +470,162 @@ def cond_cases(ctx):
     return cases
 
 
+def decl_features(r, f):
+    """dataclass declaration features of one field (not for EnvWizard)"""
+    if r.random() < 0.22:
+        f['init'] = False              # with default, with default_factory, or assigned in __post_init__ only
+    if r.random() < 0.1:
+        f['repr'] = False
+    if r.random() < 0.1:
+        f['compare'] = False
+
+
+def class_shape(r, wizard, fields):
+    """class-level declaration features; may reorder `fields` (in place) so that the class is legal"""
+    if wizard == 'env':
+        return {}
+    shape = {'kw_only': r.random() < 0.6, 'frozen': r.random() < 0.15, 'slots': r.random() < 0.15,
+             'classvar': r.random() < 0.25, 'initvar': r.random() < 0.25,
+             'n_base': r.choice([0, 0, 0, 1, 2, 3]) if len(fields) > 1 else 0}
+    shape['n_base'] = min(shape['n_base'], len(fields) - 1)
+    if not shape['kw_only']:
+        # positional constructor arguments: those without a default first
+        fields.sort(key=lambda f: 1 if (f.get('init', True) and f['default'] is not None) else
+                    (0 if f.get('init', True) else 2))
+    return shape
+
+
+def equal_variants(d):
+    """values equal to d but of another type / another object: 1 / 1.0 / True, 0 / 0.0 / -0.0 / False"""
+    if d['t'] in ('bool', 'int', 'float') and not d_nonfinite(d):
+        x = {'bool': lambda: int(d['v']), 'int': lambda: int(d['v']), 'float': lambda: float.fromhex(d['v'])}[d['t']]()
+        out = []
+        if x == int(x) and abs(x) < 2 ** 53:
+            out += [D(int(x)), D(float(x))]
+            if x in (0, 1):
+                out.append(D(bool(x)))
+            if x == 0:
+                out.append(D(-0.0))
+        return [v for v in out if v != d]
+    return []
+
+
+def default_like(r, L, f):
+    """an instance value related to the field's default: the default itself by omission (the field
+    is not passed to the constructor), the very object, an equal copy, an equal value of another type"""
+    d = f['default']
+    u = r.random()
+    ev = equal_variants(d['d'])
+    if u < 0.35:
+        return dict(L.new(d['d']), omit=True)
+    if u < 0.55:
+        return d
+    if u < 0.75 or not ev:
+        return L.new(d['d'])
+    return L.new(r.choice(ev))
+
+
+def decl_cases(ctx):
+    """classes built around the declaration features: every defaulted field is init=False / inherited /
+    default_factory ..., values equal to the default, all three skip_defaults settings"""
+    r = ctx.sub_rng('decl')
+    cases = []
+    for ci in range(24 if ctx.tier == 'quick' else 200):
+        L = Labels()
+        wizard = r.choice(['json', 'json', 'plain'])
+        k = r.choice([2, 3, 4])
+        meta = {}
+        mode = ci % 3
+        if mode == 0:
+            meta['skip_defaults'] = True
+        elif mode == 1:
+            meta['skip_defaults_if'] = gen_cond(r, L, True, ops=['==', '!=', 'is', '+', '!', '>='])
+        fields = []
+        for nm in r.sample(NAMES, k):
+            f = {'name': nm, 'key': ref_key(nm, wizard), 'dump': True, 'default': None, 'cond': None, 'place': None}
+            if r.random() < 0.8:
+                f['default'] = L.new(r.choice(POOL) if r.random() < 0.8 else gen_value(r))
+                dd = f['default']['d']
+                f['factory'] = r.choice([False, True, 'fresh']) if not (d_has_tok(dd) or d_has_nonfinite(dd)) else False
+            f['init'] = r.random() < 0.45
+            if r.random() < 0.2:
+                f['cond'] = gen_cond(r, L, True)
+                f['place'] = r.choice(['field', 'annotated'])
+            fields.append(f)
+        shape = class_shape(r, wizard, fields)
+        insts = []
+        for _ in range(3):
+            iv = []
+            for f in fields:
+                if f['default'] is not None and r.random() < 0.75:
+                    iv.append(default_like(r, L, f))
+                else:
+                    anchors = [x for x in [(meta.get('skip_defaults_if') or {}).get('val')] if x is not None]
+                    iv.append(r.choice(anchors) if anchors and r.random() < 0.4 else L.new(r.choice(POOL)))
+            insts.append(iv)
+        cases.append(dict(shape, **{'stream': 'decl', 'wizard': wizard, 'fields': fields, 'meta': meta, 'instances': insts,
+                                    'Es': [None, [fields[0]['name']]], 'ss': [None, True, False]}))
+    return cases
+
+
+SHARED_CONDS = [('==', [0]), ('!=', {'a': 1}), ('is', Tok('user', 2)), ('<', nan), ('==', (1, 2)), ('>=', [1, 'a']),
+                ('is not', 10 ** 10), ('==', 5), ('is', None)]
+
+
+def shared_cases(ctx):
+    """ONE Condition object (a module-level `SKIP = SkipIf(EQ([0]))`) reused by several classes at different
+    field positions, as Meta.skip_if and as Meta.skip_defaults_if; the classes are dumped one after the
+    other in one interpreter.  Other fields carry their own closure-bound conditions, so a stale
+    variable name would denote another value."""
+    r = ctx.sub_rng('shared')
+    cases = []
+    reps = 1 if ctx.tier == 'quick' else 6
+    for t, (op, x) in enumerate(SHARED_CONDS * reps):
+        key = 'sh%d' % t
+        positions = [('field', 0), ('field', 2), ('meta_skip_if', None), ('field', 1), ('meta_sdi', None), ('field', 3)]
+        r.shuffle(positions)
+        for place, pos in positions[:4]:
+            L = Labels()
+            wizard = r.choice(['json', 'json', 'plain', 'env'])
+            shared = {'op': op, 'val': L.new(D(x)), 'wrap': True, 'share': key}
+            k = (pos + 1 if pos is not None else r.choice([1, 2, 3])) + r.choice([0, 1])
+            meta = {}
+            fields = []
+            for i, nm in enumerate(r.sample(NAMES, k)):
+                f = {'name': nm, 'key': ref_key(nm, wizard), 'dump': True, 'default': None, 'cond': None, 'place': None}
+                if place == 'field' and i == pos:
+                    f['cond'], f['place'] = shared, r.choice(['field', 'annotated'])
+                elif r.random() < 0.7:
+                    CLOSURE_BIAS[0] = True
+                    f['cond'], f['place'] = gen_cond(r, L, True, ops=['==', '!=', 'is', 'is not']), r.choice(['field', 'annotated'])
+                    CLOSURE_BIAS[0] = False
+                if place == 'meta_sdi' or r.random() < 0.3:
+                    f['default'] = L.new(r.choice(POOL))
+                fields.append(f)
+            if place == 'meta_skip_if':
+                meta['skip_if'] = shared
+            elif place == 'meta_sdi':
+                meta['skip_defaults_if'] = shared
+            insts = []
+            for _ in range(3):
+                iv = []
+                for f in fields:
+                    u = r.random()
+                    own = (f['cond'] or {}).get('val')
+                    if u < 0.3:
+                        iv.append(shared['val'])
+                    elif u < 0.5:
+                        iv.append(L.new(shared['val']['d']))
+                    elif own is not None and u < 0.75:
+                        iv.append(own if r.random() < 0.5 else L.new(own['d']))
+                    else:
+                        iv.append(L.new(r.choice(POOL)))
+                insts.append(iv)
+            cases.append({'stream': 'shared', 'wizard': wizard, 'fields': fields, 'meta': meta, 'instances': insts,
+                          'Es': [None], 'ss': [None]})
+    return cases
+
+
 def cls_cases(ctx):
     r = ctx.sub_rng('cls')
     cases = []
@@ -478,7 +656,11 @@ def cls_cases(ctx):
                 f['dump_via'] = r.choice(['v1_field', 'v1_annotated'] if meta.get('v1') else ['field', 'annotated'])
             if r.random() < 0.6:
                 f['default'] = L.new(r.choice(POOL) if r.random() < 0.8 else gen_value(r))
-                f['factory'] = r.random() < 0.3
+                dd = f['default']['d']
+                f['factory'] = r.choice([False, False, True, 'fresh']) if not (d_has_tok(dd) or d_has_nonfinite(dd)) \
+                    else r.random() < 0.3
+            if wizard != 'env':
+                decl_features(r, f)
             if r.random() < 0.5:
                 f['cond'] = gen_cond(r, L, f20_ok)
                 f['place'] = r.choice(['field', 'annotated'])
@@ -490,6 +672,8 @@ def cls_cases(ctx):
             if not f['dump'] and f.get('dump_via') == 'v1_field' and f['default'] is None:
                 f['dump_via'] = 'v1_annotated'
             fields.append(f)
+        shape = class_shape(r, wizard, fields)
+        names = [f['name'] for f in fields]
         insts = []
         for _ in range(2):
             iv = []
@@ -497,6 +681,9 @@ def cls_cases(ctx):
                 anchors = [x for x in [f['default'], (f['cond'] or {}).get('val'), (meta.get('skip_if') or {}).get('val'),
                                         (meta.get('skip_defaults_if') or {}).get('val')] if x is not None]
                 u = r.random()
+                if f['default'] is not None and r.random() < 0.3:
+                    iv.append(default_like(r, L, f))
+                    continue
                 oa = ordering_anchor([f['cond'] if f['cond'] is not None else meta.get('skip_if'),
                                       meta.get('skip_defaults_if') if f['default'] is not None else None])
                 cmpv = comparable_value(r, oa) if (oa is not None and r.random() < 0.85) else None
@@ -511,8 +698,8 @@ def cls_cases(ctx):
             insts.append(iv)
         Es = [None] + [[nm for j, nm in enumerate(names) if mask >> j & 1] for mask in range(2 ** k)] + [[names[0], 'zz']]
         CLOSURE_BIAS[0] = False
-        cases.append({'stream': 'cls', 'wizard': wizard, 'fields': fields, 'meta': meta, 'instances': insts,
-                      'Es': Es, 'ss': [None, True, False]})
+        cases.append(dict(shape, **{'stream': 'cls', 'wizard': wizard, 'fields': fields, 'meta': meta, 'instances': insts,
+                                    'Es': Es, 'ss': [None, True, False]}))
     return cases
 
 
@@ -568,9 +755,9 @@ def compiled_conds(c):
     """(where, cond) for every condition the generator compiles for this class"""
     out = []
     for f in c['fields']:
-        if f['dump'] and f.get('cond') is not None:
+        if model_dumped(c, f) and f.get('cond') is not None:
             out.append((f['name'], f['cond']))
-    if c['meta'].get('skip_if') is not None and any(f['dump'] and f.get('cond') is None for f in c['fields']):
+    if c['meta'].get('skip_if') is not None and any(model_dumped(c, f) and f.get('cond') is None for f in c['fields']):
         out.append(('@skip_if', c['meta']['skip_if']))
     if c['meta'].get('skip_defaults_if') is not None and any(f['default'] is not None for f in c['fields']):
         out.append(('@sdi', c['meta']['skip_defaults_if']))
@@ -594,6 +781,10 @@ def check_call(c, rec, call):
         return ('keys %r not in field order %r' % (got['keys'], known), None)
     wrong = [f['key'] for f in exp['fields'] if ('keep' if f['key'] in got['keys'] else 'omit') not in f['acc']]
     if wrong:
+        f22 = {f['key'] for f in c['fields'] if f22_field(c, f)}
+        if set(wrong) <= f22 and all(k in got['keys'] for k in wrong):
+            return ('keys %r, reference selection %r: v1 Alias(skip=True) ignored on init=False field(s) %r'
+                    % (got['keys'], lazy, wrong), F22)
         return ('keys %r, reference selection %r (wrong: %r)' % (got['keys'], lazy, wrong), None)
     base = rec.get('baseline')
     if base is not None:
@@ -786,6 +977,7 @@ def run_batch(ctx, cases):
 
 
 def run(ctx):
+    F22_OPEN[0] = ctx.is_open_region(F22)
     # ---- listed findings: replay the witnesses
     for f in ctx.findings():
         w = f.get('witness')
@@ -793,8 +985,13 @@ def run(ctx):
             still = not replay(ctx, w, quiet=True)
             ctx.known_finding(f['id'], still_fails=still)
     sem_stream(ctx)
-    cases = cond_cases(ctx) + cls_cases(ctx) + [finding_case(k) for k in ('syntax', 'name', 'is')] + former_f20_cases(ctx)
+    cases = cond_cases(ctx) + cls_cases(ctx) + decl_cases(ctx) + \
+        [finding_case(k) for k in ('syntax', 'name', 'is')] + former_f20_cases(ctx)
     impl_cases = run_batch(ctx, cases)
+    sh = shared_cases(ctx)                       # one interpreter for the whole stream, classes in sequence
+    for k in range(0, len(sh), 240):
+        impl_cases.extend(ctx.impl('c11', {'sem': None, 'cases': sh[k:k + 240]})['cases'])
+    cases = cases + sh
     failures = eval_cases(ctx, cases, impl_cases)
     n_viol = 0
     seen_cases = set()
@@ -817,6 +1014,26 @@ def run(ctx):
             if not f['dump']:
                 ctx.hist('not_dumped_via', f.get('dump_via'))
         ctx.hist('fields', len(c['fields']))
+        for k in ('kw_only', 'frozen', 'slots', 'classvar', 'initvar'):
+            if c.get(k):
+                ctx.hist('class_feature', k)
+        if c.get('n_base'):
+            ctx.hist('class_feature', 'inherits %d field(s) from a base dataclass' % c['n_base'])
+        for f in c['fields']:
+            if f.get('init') is False:
+                ctx.hist('field_feature', 'init=False ' + ('without default' if f['default'] is None else
+                                                            'default_factory' if f.get('factory') else 'default'))
+            for k in ('repr', 'compare'):
+                if f.get(k) is False:
+                    ctx.hist('field_feature', k + '=False')
+            if f.get('factory') == 'fresh':
+                ctx.hist('field_feature', 'default_factory building a new object')
+            if (f.get('cond') or {}).get('share'):
+                ctx.hist('field_feature', 'shared Condition object')
+        for iv in c['instances']:
+            for lv in iv:
+                if lv.get('omit'):
+                    ctx.hist('field_feature', 'value omitted from the constructor')
         for _w, k in compiled_conds(c):
             ctx.hist('cond_op', k['op'])
             if k['val'] is not None:
